@@ -188,7 +188,7 @@ StopSwitch(s, c) ==
               Ev("Terminated", "New", "none"), TRUE)
   ELSE IF s.cancelFn = "set" THEN [s EXCEPT !.ctxDone = TRUE, !.spc[c] = "done"]
   ELSE IF GuardNilCancel THEN [s EXCEPT !.spc[c] = "done"]
-  ELSE [s EXCEPT !.nilCalls = @ + 1, !.spc[c] = "done"]       \* b.serviceCancel() with a nil func: panic
+  ELSE [s EXCEPT !.nilCalls = @ + 1, !.spc[c] = "panicked"]   \* b.serviceCancel() with a nil func: panic
 
 -----------------------------------------------------------------------------
 (* Listeners *)
@@ -302,7 +302,7 @@ TypeOK ==
   /\ sv.ctxDone \in BOOLEAN /\ sv.parentDone \in BOOLEAN /\ sv.runCh \in 0..2 /\ sv.termCh \in 0..2
   /\ sv.mpc \in {"none", "spawned", "inStart", "afterStart", "toRun", "callRun", "inRun", "toStop",
                  "cancel", "callStop", "inStop", "final", "done"}
-  /\ \A c \in Callers : sv.spc[c] \in {"idle", "checked", "done"}
+  /\ \A c \in Callers : sv.spc[c] \in {"idle", "checked", "done", "panicked"}
   /\ \A l \in Lis : /\ sv.lst[l] \in {"none", "nop", "active", "removed"}
                     /\ sv.lgo[l] \in {"none", "idle", "cb", "exited"}
                     /\ sv.rpc[l] \in {"none", "closed", "deleted", "done"}
@@ -368,12 +368,13 @@ NotifierNeverBlocks == \A l \in Lis : Len(sv.lq[l]) <= QCap
 QueueNeverFull == \A l \in Lis : Len(sv.lq[l]) < QCap
 
 \* F4
-NoNilCancelCall == sv.nilCalls = 0
+NoNilCancelCall == sv.nilCalls = 0 /\ \A c \in Callers : sv.spc[c] # "panicked"
 
 \* Liveness (under Fairness)
-Started == sv.state \notin {"New"} \/ sv.state = "Terminated"
-EventuallyTerminal == (sv.state \in {"Starting", "Running", "Stopping"}) ~> (sv.state \in Terminal)
-StopLeadsToTerminal == \A c \in Callers : (sv.spc[c] = "done") ~> (sv.state \in Terminal)
+\* (the running function of an idle or timer service returns only once the context is done)
+EventuallyTerminal == (sv.state \in {"Starting", "Running", "Stopping"} /\ (sv.mode = "any" \/ sv.ctxDone \/ sv.state = "Stopping"))
+                         ~> (sv.state \in Terminal)
+StopLeadsToTerminal == \A c \in Callers : (sv.spc[c] \in {"done", "panicked"}) ~> (sv.state \in Terminal)
 WaitersReturn == \A w \in Waiters : (sv.wpc[w] = "waiting" /\ sv.state \in Terminal) ~> (sv.wpc[w] = "returned")
 ListenersDrain == \A l \in Lis : (sv.lst[l] = "active" /\ sv.state \in Terminal) ~> (sv.lgo[l] = "exited")
 
